@@ -551,8 +551,10 @@ class Walker:
                 return ("zst", o["ty"])
             if "uneval" in o:
                 c = self.db.consts.get(o["uneval"])
-                if c is not None:
+                if c is not None and "val" in c:
                     return Int(c["val"])
+                if c is not None and "str" in c:
+                    return ("str", c["str"])
                 return ("const", o["uneval"], o.get("text"))
             return ("const", o.get("text"), o["ty"])
         return ("rtcheck",)
@@ -801,6 +803,15 @@ class Walker:
 
         path = callee["path"]
         cn = cname(path)
+
+        if target is None and (cn.startswith("core::panicking::") or cn.startswith("std::panicking::") or "begin_panic" in cn
+                               or cn in ("std::rt::panic_fmt", "core::panicking::panic_fmt", "std::rt::begin_panic", "std::process::abort")
+                               or cn.endswith("unwrap_failed") or cn.endswith("expect_failed") or cn.endswith("slice_error_fail")
+                               or (cn.startswith("core::slice::index::") and cn.endswith("_fail"))):
+            # an explicit panic (`assert!` / `debug_assert!` / `unreachable!` / `panic!` / failed unwrap): same exit kind as a
+            # failing MIR Assert terminator
+            st.trace.append(("call", cn, tuple(args), None, site, t["span"], callee, len(st.facts.order), t.get("cs")))
+            self._finish("panic", None, st, detail=("call", cn, t["span"]))
 
         # 1. primitive effects of the analysis at hand
         eff = self.effect_of(callee, args, st, self)
